@@ -11,28 +11,40 @@ SHAPES = ["leaf", "chain2", "chain3", "fan2", "shared", "two-deps-and-message"]
 
 
 class Node:
+    STYLE = "plain"      # how providers with sub-dependencies declare them (set per scenario)
+
     def __init__(self, name, a, b, subs, is_async, fails=False):
         self.name, self.a, self.b, self.subs, self.is_async, self.fails = name, a, b, subs, is_async, fails
         self.calls = []
         self.dep = None
+        self.slow = 0          # an async provider may take a moment (set per scenario)
 
     def value(self):
         """oracle: independent nested evaluation"""
         tot = 0
-        for _, sub in self.subs:
-            tot = tot + sub.value()
+        for i, (_, sub) in enumerate(self.subs):
+            tot = tot + (i + 1) * sub.value()          # order-sensitive: a swapped pair of values shows
         return self.a * tot + self.b
 
     def build(self):
         from repid.dependencies import Depends
-        params = ", ".join(f"{pname}: Annotated[int, subs[{i}].dep]" for i, (pname, sub) in enumerate(self.subs))
-        args = " + ".join(pname for pname, _ in self.subs) or "0"
-        pnames = ", ".join(f"{p}={p}" for p, _ in self.subs)
+        plist = [f"{pname}: Annotated[int, subs[{i}].dep]" for i, (pname, sub) in enumerate(self.subs)]
+        style = Node.STYLE if self.subs else "plain"
+        if style == "keyword-only":
+            plist = ["*"] + plist
+        elif style == "ordinary-default-between":
+            # an ordinary parameter with a default between the dependencies (the later ones then need defaults as well)
+            plist = plist[:1] + ["verbose: int = 7"] + [x + " = 0" for x in plist[1:]]
+        params = ", ".join(plist)
+        args = " + ".join(f"{i + 1} * {pname}" for i, (pname, _) in enumerate(self.subs)) or "0"
+        pnames = ", ".join([f"{p}={p}" for p, _ in self.subs] + (["verbose=verbose"] if style == "ordinary-default-between" else []))
         src = (("async def" if self.is_async else "def") + f" provider({params}):\n"
+               + ("    await asyncio.sleep(node.slow)\n" if self.is_async else "") +
                f"    node.calls.append(dict({pnames}))\n"
                f"    if node.fails:\n        raise RuntimeError('provider {self.name} failed')\n"
                f"    return node.a * ({args}) + node.b\n")
-        ns = {"Annotated": Annotated, "subs": [s for _, s in self.subs], "node": self}
+        import asyncio
+        ns = {"Annotated": Annotated, "subs": [s for _, s in self.subs], "node": self, "asyncio": asyncio}
         exec(src, ns)  # noqa: S102
         self.fn = ns["provider"]
         self.dep = Depends(self.fn)
@@ -41,7 +53,11 @@ class Node:
 
 def make_graph(S, shape):
     def leaf(name):
-        return Node(name, 1, S.int("c_" + name, None, None), [], S.flag("async_" + name))
+        n = Node(name, 1, S.int("c_" + name, None, None), [], S.flag("async_" + name))
+        if n.is_async and shape == "fan2" and S.flag("slow_" + name):
+            from fractions import Fraction
+            n.slow = Fraction(1, 1000)      # still running when a sibling declared later has already failed
+        return n
 
     def inner(name, a, subs):
         return Node(name, a, S.int("b_" + name, None, None), subs, S.flag("async_" + name))
@@ -92,10 +108,14 @@ def h18(S):
 
     shape = SHAPES[S.pick("shape", len(SHAPES))]
     conv = [BasicConverter, PydanticConverter][S.pick("converter", 2)]
+    n_over = S.pick("overrides", 3)
+    # how providers declare their sub-dependencies is varied on the graphs without overrides (the two dimensions are independent)
+    Node.STYLE = (["plain", "keyword-only", "ordinary-default-between"][S.pick("provider_signature", 3)]
+                  if shape != "leaf" and n_over == 0 else "plain")
+    S.tag("provider_signature", Node.STYLE)
     S.tag("shape", shape)
     S.tag("converter", conv.__name__)
     nodes, deps = make_graph(S, shape)
-    n_over = S.pick("overrides", 3)
     overridden = []
     for k in range(n_over):
         tgt = nodes[S.pick(f"override_target{k}", len(nodes))]
@@ -146,11 +166,17 @@ def h18(S):
         w.broker.queues["default"].processing.add(MemMessage(key, payload, params))
         actor = mk_actor(ns["actor"], converter=conv, retry_policy=lambda retry_number=1: real_timedelta(hours=1))
         proc = _Processor(w.conn)
-        await proc.process(actor, key, payload, params)
+        import asyncio
+        try:
+            await proc.process(actor, key, payload, params)
+            out["escaped"] = None
+        except asyncio.CancelledError:
+            out["escaped"] = "CancelledError"     # nobody cancelled the processing task
         out["ops"] = [c["op"] for c in w.rec.calls]
         out["key"] = key
 
     run_async(main, clock=PinnedClock(T0))
+    S.check("processing-is-not-cancelled-from-inside", out["escaped"] is None, info=f"{shape}: CancelledError escaped _Processor.process(); broker calls {out['ops']}")
     if failing is not None and any(failing is n or _uses(n, failing) for n in deps.values()):
         S.cover("provider-failed")
         S.check("actor-not-invoked-when-a-provider-fails", received == [])
@@ -176,6 +202,8 @@ def h18(S):
                 continue
             for pname, sub in (n.subs if n.name not in overridden else []):
                 S.check("provider-called-with-its-resolved-sub-dependencies", call[pname] == sub.value(), info=f"{n.name}.{pname}")
+            if "verbose" in call:
+                S.check("ordinary-parameter-of-a-provider-keeps-its-default", call["verbose"] == 7, info=f"{n.name}: verbose={call['verbose']!r}")
     for n in nodes:
         if n.name in overridden:
             S.cover("override")
